@@ -157,8 +157,43 @@ def return_locals(fn):
     return r
 
 
-def error_return_blocks(fn):
-    """blocks that build an Err(..) / residual in (a local that becomes) the return value"""
+_ALWAYS_ERR = {}
+
+
+def always_err(prog, g, depth=0):
+    """does the crate-local function g return Err(..) on every path (a helper such as
+    `fn unsupported() -> Result<(), E> { Err(E::Unsupported) }`)?"""
+    if g.id in _ALWAYS_ERR:
+        return _ALWAYS_ERR[g.id]
+    _ALWAYS_ERR[g.id] = False
+    res = False
+    if "Result<" in (g.d.get("output") or "") and depth < 3:
+        from ..sym import Sym, _outcomes
+        gs = Sym(g)
+        defs = [d for d in g.defs().get(0, [])]
+        res = bool(defs)
+        for (bb, j, rv, whole) in defs:
+            if not whole:
+                res = False
+                break
+            r = gs.rvalue(rv, bb, (bb, j))
+            o = _outcomes(r)
+            if o == {"Err"}:
+                continue
+            if r[0] in ("call", "callat"):
+                rid = r[4] if r[0] == "callat" else r[3]
+                h = prog.fns.get(rid) if isinstance(rid, str) else None
+                if h is not None and always_err(prog, h, depth + 1):
+                    continue
+            res = False
+            break
+    _ALWAYS_ERR[g.id] = res
+    return res
+
+
+def error_return_blocks(fn, prog=None):
+    """blocks that build an Err(..) / residual in (a local that becomes) the return value, or
+    call a crate-local helper that returns Err on all its paths for it"""
     out = set()
     rl = return_locals(fn)
     for b, blk in enumerate(fn.blocks):
@@ -174,6 +209,10 @@ def error_return_blocks(fn):
             nm = t[1].get("name", "")
             if nm.endswith("FromResidual::from_residual"):
                 out.add(b)
+            elif prog is not None:
+                g = prog.fns.get(t[1].get("res") or t[1].get("id"))
+                if g is not None and g.kind != "closure" and always_err(prog, g):
+                    out.add(b)
     return out
 
 
@@ -381,7 +420,7 @@ class MustWrite:
                 for (fc, fv) in sym.facts_at(s_):
                     if fc[0] == "callat" and fc[1] == b and isinstance(fv, (bool, int)) and when.get(bool(fv)):
                         blocked_edges.add((p_, s_))
-        err_blocks = error_return_blocks(fn)
+        err_blocks = error_return_blocks(fn, prog)
         rets = fn.returns()
         path = find_path_consistent(fn, 0, rets, blocked=err_blocks, blocked_edges=blocked_edges)
         if path is None:
